@@ -11,7 +11,8 @@ Require Import CV.Params CV.CellOrder.
 Require Import CV.Orient CV.FreeSpace CV.Circuit CV.Hpwl CV.HpwlProofs CV.Moves CV.MovesProofs CV.MovesConcrete CV.Optimiser CV.OptimiserProofs.
 Require Import CV.Legalizer CV.LegalizerSoundProofs CV.DetailedInit CV.DetailedInitProofs CV.DetailedExport CV.DetailedValue CV.DetailedValueProofs CV.DetailedValueStepProofs.
 Require Import CV.DetailedRun CV.DetailedRunCircuitProofs CV.DetailedRunShiftProofs.
-Require Import CV.InternalChecks CV.InternalChecksEntry CV.InternalChecksDetailed CV.InternalChecksDetailedProofs CV.InternalChecksPlace CV.InternalChecksPlaceProofs.
+Require Import CV.MovesConcreteProofs.
+Require Import CV.InternalChecks CV.InternalChecksEntry CV.InternalChecksDetailed CV.InternalChecksDetailedProofs CV.InternalChecksConcreteProofs CV.InternalChecksPlace CV.InternalChecksPlaceProofs.
 Local Open Scope Z_scope.
 
 (* [F] DetailedPlacement::check on the row lists (geometry :541-570 and orientations :573-584; the pointer tests concern the
@@ -93,11 +94,21 @@ Theorem c02_place_detailed_only_stops : forall P c0 nets answers rh, std_design 
   end.
 Proof. exact place_entry_outcomes. Qed.
 
+(* [F] the LINE-BY-LINE version on the index arrays (cdp_check: the ten size tests, the first/last tests per row, the
+   pred/next/row/geometry tests per cell, rowCells() + the orientation test per row; every read bounds-checked) -- the version
+   the tie evaluates on the arrays of the C++ -- passes on every concrete state that is well formed in the sense of the
+   refinement proof of C02 (MovesConcreteProofs.WF, kept by every operation: c02 concrete_refines_abstract) and whose
+   abstraction has rows satisfying the row invariant and CO.  No out-of-bounds read, rowCells() terminates.
+   (The coupling loop on the arrays, ccoupling_check, is tied but not proved against DetailedValue.coupled.) *)
+Theorem c02_array_check_passes : forall cs d, WF cs -> abs cs = Some d -> Forall row_ok (d_rows d) -> CO d ->
+  cdp_check cs (nb_cells cs) = CPass.
+Proof. exact cdp_check_of_abs. Qed.
+
 (* ---------- non-vacuity ---------- *)
 (* the circuit of Properties_C02_run.c02_run_nonvacuous: rows [0,12]x[0,2] (N) and [0,12]x[2,4] (FS), a polarised cell, three
    other movable cells, two fixed pins, three nets *)
 Definition exq : circuit :=
-  {| rows := [mkrow 0 12 0 2 oN; mkrow 0 12 2 4 oFS];
+  {| rows := [DetailedInitProofs.mkrow 0 12 0 2 oN; DetailedInitProofs.mkrow 0 12 2 4 oFS];
      cells := [mkcell 0 0 2 2 oN pNW false true; mkcell 4 0 2 2 oN pANY false true; mkcell 1 2 2 2 oN pANY false true;
                mkcell 6 2 3 2 oN pANY false true; mkcell 11 3 0 0 oN pANY true false; mkcell 0 0 0 0 oN pANY true false] |}.
 Definition exq_nets : list (list hpin) := [[hp 1 0 0; hp 4 0 0]; [hp 3 0 0; hp 5 0 0]; [hp 0 1 1; hp 2 0 0]].
@@ -179,6 +190,7 @@ Print Assumptions c02_check_orientation_kept.
 Print Assumptions c02_constructor_establishes_check_orientation.
 Print Assumptions c02_incr_check_passes.
 Print Assumptions c02_incr_constructors_pass_check.
+Print Assumptions c02_array_check_passes.
 Print Assumptions c02_placer_check_passes.
 Print Assumptions c02_detailed_checks_pass.
 Print Assumptions c02_place_detailed_checked.
